@@ -239,6 +239,15 @@ class Models:
                     if ua and isinstance(ua[0], ast.Constant):
                         g.unique = bool(ua[0].value)
                     return g
+        if isinstance(expr, ast.Call) and src_of(expr.func).split(".")[-1] == "namedtuple" and len(expr.args) >= 2:
+            try:
+                spec = ast.literal_eval(expr.args[1])
+                fields = spec.replace(",", " ").split() if isinstance(spec, str) else list(spec)
+                tv = TypeV(name)
+                tv.nt_fields = fields
+                return tv
+            except Exception:
+                pass
         if isinstance(expr, ast.Subscript) and isinstance(expr.value, ast.Name):
             # type alias such as UnitDefT = Term['Unit']
             r = self.prog.resolve_global(module, expr.value.id)
@@ -736,6 +745,16 @@ class Models:
             return OpaqueV(f"{obj.tag}.{attr}")
         if isinstance(obj, ConvV):
             return OpaqueV(f"conv.{attr}")
+        if isinstance(obj, NTupleV):
+            if attr in obj.fields:
+                return obj.items[obj.fields.index(attr)]
+            if attr == "_replace":
+                def repl(args, kwargs, n, o=obj):
+                    vals = [kwargs.get(f, v) for f, v in zip(o.fields, o.items)]
+                    return NTupleV(vals, o.fields, o.clsname)
+                return NativeV(repl, "namedtuple._replace")
+            if attr == "_asdict":
+                return NativeV(lambda a, k, n, o=obj: DictV([(StrV(f), v) for f, v in zip(o.fields, o.items)]), "_asdict")
         if isinstance(obj, TupleV) and attr in ("count", "index"):
             return OpaqueV("tuple." + attr)
         I.unsupported(node, f"attribute {attr} of {obj!r}")
@@ -1008,6 +1027,10 @@ class Models:
             return a.const == b.const
         if isinstance(a, NoneV) or isinstance(b, NoneV):
             return isinstance(a, NoneV) and isinstance(b, NoneV)
+        if isinstance(a, EnumV) and isinstance(b, EnumV):
+            return self.truth(self.compare(ast.Eq, a, b, node), node)
+        if isinstance(a, FuncV) and isinstance(b, FuncV):
+            return a.name == b.name
         if isinstance(a, Num) and isinstance(b, Num):
             return self.truth(CmpV("==", a, b), node)
         if isinstance(a, ObjV) and isinstance(b, ObjV) and a.ci is not None and self.prog.lookup(a.ci, "__eq__"):
